@@ -482,18 +482,21 @@ class PartitionedArray(object):
             if any(isinstance(x, ak.layout.Record) for x in prepared):
                 names = None
                 counts = None
+                istuple = False
                 for x in prepared:
                     assert isinstance(x, ak.layout.Record)
                     n = ak.operations.describe.fields(x)
-                    c = ak.operations.structure.unzip(x)
+                    c = ak.operations.structure.unzip(x) if len(n) != 0 else ()
                     if names is None:
-                        names, counts = n, list(c)
+                        names, counts, istuple = n, list(c), x.istuple
                     else:
                         assert n == names
                         for i, ci in enumerate(c):
                             counts[i] += ci
                 arraycounts = [ak.layout.NumpyArray(numpy.array([x])) for x in counts]
-                return ak.layout.Record(ak.layout.RecordArray(arraycounts, names), 0)
+                return ak.layout.Record(
+                    ak.layout.RecordArray(arraycounts, None if istuple else names, 1), 0
+                )
             else:
                 return sum(prepared)
         else:
